@@ -120,13 +120,14 @@ package logdb
 //@ trusted iterates the snapshot key range with a decoding callback (closure-heavy; not verified); propagates the store's error
 //@ modifies gIOFailed
 //@ ensures gIOFailed && !old(gIOFailed) ==> result1 != nil
-//@ ensures !gIOFailed ==> old(gIOFailed) == gIOFailed
+//@ ensures old(gIOFailed) ==> gIOFailed
 
 //@ func (r *db) saveSnapshot [C10]
 //@ noframe
 //@ requires r.kvs != nil
 //@ modifies gIOFailed
 //@ ensures gIOFailed && !old(gIOFailed) ==> result != nil
+//@ ensures old(gIOFailed) ==> gIOFailed
 
 //@ func (r *db) saveState [C10]
 //@ trusted writes into the in-memory write batch only (no store I/O)
@@ -146,9 +147,11 @@ package logdb
 //@ requires r.kvs != nil && r.cs != nil
 //@ modifies gIOFailed
 //@ ensures gIOFailed && !old(gIOFailed) ==> result != nil
+//@ loop 1 invariant gIOFailed == old(gIOFailed) && r.kvs != nil && r.cs != nil
 
 //@ func (r *db) saveSnapshots [C10 C16]
 //@ noframe
 //@ requires r.kvs != nil && r.cs != nil
 //@ modifies gIOFailed
 //@ ensures gIOFailed && !old(gIOFailed) ==> result != nil
+//@ loop 1 invariant gIOFailed == old(gIOFailed) && r.kvs != nil && r.cs != nil
